@@ -572,9 +572,12 @@ async fn exec_step(ctx: &mut Ctx, step: &Value) -> (String, String, Value) {
                         plans.push(("rowid", vec![json!(x), json!(x)]));
                     }
                 }
-                plans.push(("addr", addrs.iter().rev().map(|(f, o)| json!([f, o])).collect()));
-                for (f, o) in &addrs {
-                    plans.push(("addr", vec![json!([f, o])]));
+                // take_rows takes row ids: addresses only when the table has address-style row ids
+                if !stable {
+                    plans.push(("addr", addrs.iter().rev().map(|(f, o)| json!([f, o])).collect()));
+                    for (f, o) in &addrs {
+                        plans.push(("addr", vec![json!([f, o])]));
+                    }
                 }
                 let proj = d.schema().project(&["id"])?;
                 let mut takes = vec![];
